@@ -9,7 +9,7 @@ META = {
 }
 SHAPES = {0: "PATH(2) MEMBER(1) DESTINATION(3) SIGNATURE(1)", 1: "DESTINATION(5) PATH(1) unknown200:y MEMBER(2)", 2: "unknown200:y PATH(1) unknown201:s(2) SENDER(2) unknown130:u",
           3: "REPLY_SERIAL ERROR_NAME(3) SENDER(4)", 4: "no fields", 5: "MEMBER(1) CONTAINER_INSTANCE(3) INTERFACE(3) UNIX_FDS PATH(1)", 6: "unknown11:s(1) unknown127:g(2) unknown128:y unknown255:u"}
-REAL = ["dbus/dbus-marshal-header.c", "dbus/dbus-marshal-recursive.c", "dbus/dbus-signature.c", "dbus/dbus-list.c"]
+REAL = ["dbus/dbus-marshal-recursive.c", "dbus/dbus-signature.c", "dbus/dbus-list.c"]
 ENC = ["_dbus_header_set_field_basic", "_dbus_header_delete_field", "_dbus_header_remove_unknown_fields", "_dbus_header_get_field_basic", "_dbus_header_get_field_raw", "_dbus_header_cache_revalidate",
        "reserve_header_padding", "correct_header_padding", "find_field_for_modification", "set_basic_field", "write_basic_field",
        "_dbus_type_reader_set_basic", "reader_set_basic_variable_length", "reader_set_basic_fixed_length", "_dbus_type_reader_delete", "replacement_block_init", "replacement_block_replace",
